@@ -131,13 +131,18 @@ func Handler(backendPort int, passthroughHandler http.Handler) http.Handler {
 		defer backendConn.Close()
 		var wg sync.WaitGroup
 		wg.Add(2)
+		// When one side is done, close the other one: that ends the peer's stream
+		// once everything read so far has been forwarded, and unblocks the copy
+		// running in the opposite direction.
 		go func() {
 			defer wg.Done()
 			io.Copy(backendConn, frontendConn)
+			backendConn.Close()
 		}()
 		go func() {
 			defer wg.Done()
 			io.Copy(frontendConn, backendConn)
+			frontendConn.Close()
 		}()
 		wg.Wait()
 	})
